@@ -10,13 +10,13 @@ import numpy as np
 from pymatgen.core import Element
 from scipy.constants import Avogadro, Boltzmann, angstrom, elementary_charge
 
-from . import core, gem, trajsc
+from . import core, gem, trajsc, translate
 from .core import Outcome, PropertySpec, enc
 
 from gemdat.metrics import TrajectoryMetrics, TrajectoryMetricsStd  # noqa: E402
 
 PID = 'C14'
-MODULES = ['GProofs.C06', 'GProofs.C14']
+MODULES = ['GProofs.C06', 'GProofs.C14', 'GProofs.C14Gen']
 
 
 def gen_case(rng):
@@ -179,6 +179,7 @@ SPEC = PropertySpec(
     modules=MODULES,
     run=run,
     replay=replay,
+    gen=translate.gen_for('FormulasC14'),
     rule=('random dyadic walks (4-39 frames, 1-4 atoms of Li/Na/O, so masses differ) on pool lattices, T in {300,650}, time step '
           '{1,2} fs: particle density, molarity, tracer diffusivity (d=1,2,3), tracer conductivity (z=1,2,3), centre-of-mass '
           'diffusivity, Haven ratio against their formulas evaluated from the exact model quantities (relative 1e-9, never absolute); '
